@@ -63,6 +63,7 @@ def check(repo, tier="quick"):
         "is_complete), and exact comparison of the implemented language (extracted gadgets + extracted edge semantics) "
         "with a reference engine on a pattern corpus."
     )
+    res.rule("C18.f", "bug patterns with zero expected instances in this property's modules: swapped same-named arguments, lower-bound guard followed by a decrement of the guarded value, presence of a dictionary entry decided by truthiness")
     res.rule("C18.a", "each from_ast gadget: (i) black-box language = constructor language, (ii) edges touch sub-automata only at start(in)/final(out), (iii) returned start has no incoming / final no outgoing added edge")
     res.rule("C18.b", "NFANode.add_transition inserts exactly one directed edge self -> dest")
     res.rule("C18.c", "simulation shape: follow = closure then symbol step; match_symbol unions symbol and wildcard steps over all current states and leaves the state untouched on failure; is_complete tests the final node in the closure or an end-of-sequence edge")
@@ -150,6 +151,10 @@ def check(repo, tier="quick"):
         res.check(w1 is None and w2 is None, "C18.d", key, src, det, by="DFA equivalence over %d symbols" % len(alpha))
     if tier == "thorough":
         exhaustive(res, gadgets, m)
+    from .. import lints as _lints
+
+    _lints.rule(repo, res, "C18.f", ['symbol_re'])
+    res.floor("C18.f", 2)
     res.floor("C18.a", 15)
     res.floor("C18.b", 4)
     res.floor("C18.c", 9)
